@@ -13,6 +13,8 @@
 package main
 
 import (
+	"time"
+	"context"
 	"bufio"
 	"bytes"
 	"encoding/hex"
@@ -312,13 +314,33 @@ func main() {
 			c2.Run()
 		}
 	}
-	gcmd := exec.Command(*goose, "-out", out, "-ignore-errors", pat)
+	gctx, gcancel := context.WithTimeout(context.Background(), 600*time.Second)
+	defer gcancel()
+	gcmd := exec.CommandContext(gctx, *goose, "-out", out, "-ignore-errors", pat)
 	gcmd.Dir = mod
 	gcmd.Env = goEnv()
 	var gerr bytes.Buffer
 	gcmd.Stderr = &gerr
 	gcmd.Stdout = &gerr
 	gerrRun := gcmd.Run()
+	if gctx.Err() != nil {
+		// find the package goose does not terminate on: one package at a time, 60 s each
+		for _, c := range cases {
+			cctx, ccancel := context.WithTimeout(context.Background(), 60*time.Second)
+			one := exec.CommandContext(cctx, *goose, "-out", filepath.Join(root, "outone"), "-ignore-errors", "./"+c.dir+"/"+c.name)
+			one.Dir = mod
+			one.Env = goEnv()
+			one.Run()
+			hung := cctx.Err() != nil
+			ccancel()
+			if hung {
+				fmt.Fprintf(w, "K %s\nG %s\nX 0 \nMISMATCH case=0 pkg=%s kind=no-termination msg=%s\nE\n", c.name, hex.EncodeToString([]byte(c.src)), c.name, hex.EncodeToString([]byte("goose did not terminate within 60 s on this package")))
+			}
+		}
+		fmt.Fprintf(w, "DONE cases=%d calls=0 accepted=0 rejected=0 mismatches=1 panics=0 goose_status=-1 rejected_calls=0 model_funcs=0 model_calls=0 outside_fragment=0\n", len(cases))
+		w.Flush()
+		os.Exit(0)
+	}
 	gstatus := 0
 	if gerrRun != nil {
 		if ee, ok := gerrRun.(*exec.ExitError); ok {
